@@ -19,6 +19,7 @@ import Genq.Model.Imports
 import Genq.Model.Codec
 import Genq.Model.InputClosure
 import Genq.Model.CodecIn
+import Genq.Model.Errors
 open Lean
 namespace Genq.Driver
 
@@ -302,6 +303,36 @@ def opFiles (op : String) (j : Json) : Except String Json := do
         pure ({ value := (← getStr l "value").toList, defs := ds } : Files.Lit String)
       pure ({ name := (← getStr f "name").toList, kind := kind, defs := defs, lits := lits } : Files.File String)
     return Json.mkObj [("out", Json.arr ((Files.merged files).map Json.str).toArray)]
+  | _ => throw s!"unknown op {op}"
+
+/-- an error tree: {"k":"none"} | {"k":"foreign","text"} | {"k":"wrapf","pre","inner"} |
+    {"k":"gql","file","line"?,"msg","inner"} | {"k":"list","items":[{file,line?,msg}]} |
+    {"k":"errorf","pos":{file,line}?,"pre","post","inner"}  (evaluated with the model's errorf) -/
+partial def parseErr (j : Json) : Except String Errors.E := do
+  let optLine (x : Json) : Option Nat := (x.getObjValAs? Nat "line").toOption
+  match (← getStr j "k") with
+  | "none" => pure .none
+  | "foreign" => pure (.foreign (← getStr j "text").toList)
+  | "wrapf" => pure (.wrapf (← getStr j "pre").toList (← parseErr (← j.getObjVal? "inner")))
+  | "gql" => pure (.gql (← getStr j "file").toList (optLine j) (← getStr j "msg").toList (← parseErr (← j.getObjVal? "inner")))
+  | "list" =>
+    let items ← (← getArr j "items").toList.mapM fun x => do
+      pure ((← getStr x "file").toList, optLine x, (← getStr x "msg").toList)
+    pure (.gqlList items)
+  | "errorf" =>
+    let pos : Option Errors.Pos ← match j.getObjVal? "pos" with
+      | .ok (.obj kvs) => do
+        let pj := Json.obj kvs
+        pure (some ⟨(← getStr pj "file").toList, (← getNat pj "line")⟩)
+      | _ => pure none
+    pure (Errors.errorf pos (← getStr j "pre").toList (← getStr j "post").toList (← parseErr (← j.getObjVal? "inner")))
+  | k => throw s!"error kind {k}"
+
+def opErrors (op : String) (j : Json) : Except String Json := do
+  match op with
+  | "errors.errorf" =>
+    let e ← parseErr (← j.getObjVal? "err")
+    return Json.mkObj [("text", str e.text)]
   | _ => throw s!"unknown op {op}"
 
 def opConfig (op : String) (j : Json) : Except String Json := do
@@ -655,6 +686,7 @@ def dispatch (j : Json) : Json :=
     else if op.startsWith "ws." then opWs op j
     else if op.startsWith "doc." then opDoc op j
     else if op.startsWith "files." then opFiles op j
+    else if op.startsWith "errors." then opErrors op j
     else if op.startsWith "config." then opConfig op j
     else if op.startsWith "conv." then opConv op j
     else if op.startsWith "types." then opTypes op j
